@@ -3,11 +3,23 @@ package main
 import (
 	"encoding/json"
 	"fmt"
+	"go/types"
 	"os"
+	"os/exec"
+	"path/filepath"
+	"sort"
+	"strings"
+
+	"golang.org/x/tools/go/ssa"
 )
 
 // tryReplay replays a counterexample against the real code when a driver exists for the obligation.
 func tryReplay(e *Engine, prop string, v *Verdict) map[string]any {
+	if os.Getenv("VERIF_NO_REPLAY") == "" {
+		if rep := replayValues(e, prop, v); rep != nil {
+			return rep
+		}
+	}
 	return map[string]any{"reproduced": false, "reason": "no replay driver for this obligation class; the model is over the function's inputs as listed"}
 }
 
@@ -29,6 +41,40 @@ func cmdReplay(args []string) int {
 		Checker  string `json:"checker"`
 		Failure  string `json:"failure"`
 	}
+	var rv struct {
+		Replay struct {
+			Driver  string `json:"driver"`
+			Harness string `json:"harness"`
+			Package string `json:"package"`
+			Failing struct {
+				Case  int      `json:"case"`
+				Input []string `json:"input"`
+				Real  []string `json:"real_results"`
+			} `json:"failing_input"`
+			Reproduced bool `json:"reproduced"`
+		} `json:"replay"`
+	}
+	if json.Unmarshal(b, &rv) == nil && rv.Replay.Driver == "replay:values" && rv.Replay.Reproduced && rv.Replay.Harness != "" {
+		// run the recorded harness again on the current tree and show what the real function returns for the failing input
+		repo := repoDir()
+		work := filepath.Dir(rv.Replay.Harness)
+		ov := map[string]map[string]string{"Replace": {filepath.Join(repo, rv.Replay.Package, "zz_verif_replay_test.go"): rv.Replay.Harness}}
+		ob, _ := json.Marshal(ov)
+		ovPath := filepath.Join(work, "overlay-rerun.json")
+		os.WriteFile(ovPath, ob, 0o644)
+		cmd := exec.Command("go", "test", "-tags", "verif", "-overlay", ovPath, "-vet=off", "-count=1", "-timeout", "120s", "-v", "-run", "^TestVerifReplay$", "./"+rv.Replay.Package+"/")
+		cmd.Dir = repo
+		cmd.Env = append(os.Environ(), "GOFLAGS=-mod=mod", "GOPROXY=off", "GOSUMDB=off", "GOTOOLCHAIN=local")
+		outB, _ := cmd.CombinedOutput()
+		for _, m := range reReplayLine.FindAllStringSubmatch(string(outB), -1) {
+			if m[1] == fmt.Sprint(rv.Replay.Failing.Case) {
+				fmt.Printf("input %v\nrecorded real result %v\nreal result on the current tree: %s\n", rv.Replay.Failing.Input, rv.Replay.Failing.Real, m[2])
+				return 0
+			}
+		}
+		fmt.Println("the recorded harness did not run on the current tree:", truncate(string(outB), 600))
+		return 0
+	}
 	if json.Unmarshal(b, &rf) == nil && rf.Checker == "bounded:SetLinks" && rf.Failure != "" {
 		os.Setenv("VERIF_BOUNDED_ONLY", rf.Failure)
 		x := runBoundedGoTest(rf.Property, "thorough", rf.Checker, "boltz", "c05_setlinks_test.go", "^TestVerifBoundedSetLinks$", "replay of one case")
@@ -39,6 +85,96 @@ func cmdReplay(args []string) int {
 			return 1
 		}
 		fmt.Printf("not reproduced on the current tree (%d case(s) run)\n", x.Cases)
+	}
+	return 0
+}
+
+// ---------------------------------------------------------------------------
+// replay of counterexamples on the real code (functions over plain values only)
+// ---------------------------------------------------------------------------
+
+// plainKind: how a parameter or result of a "plain value" type is passed to the real function in a replay
+//   "bool" "int" "string" "bytes" "ptr:<kind>" "error" ""(not plain)
+func plainKind(t types.Type) string {
+	if isTypeParam(t) {
+		return ""
+	}
+	switch u := under(t).(type) {
+	case *types.Basic:
+		switch {
+		case u.Info()&types.IsBoolean != 0:
+			return "bool"
+		case u.Info()&types.IsInteger != 0:
+			return "int"
+		case u.Info()&types.IsString != 0:
+			return "string"
+		}
+	case *types.Slice:
+		if b, ok := under(u.Elem()).(*types.Basic); ok && b.Kind() == types.Uint8 {
+			return "bytes"
+		}
+		if b, ok := under(u.Elem()).(*types.Basic); ok && b.Info()&types.IsString != 0 {
+			return "strings"
+		}
+	case *types.Pointer:
+		k := plainKind(u.Elem())
+		if k == "bool" || k == "int" || k == "string" {
+			return "ptr:" + k
+		}
+	case *types.Interface:
+		if types.TypeString(t, nil) == "error" {
+			return "error"
+		}
+	}
+	return ""
+}
+
+// replayable: the function takes and returns plain values only, so a model of its parameters is a complete input
+func replayable(fn *ssa.Function) bool {
+	if fn == nil || fn.Parent() != nil || fn.Object() == nil || fn.TypeParams().Len() > 0 {
+		return false
+	}
+	sig := fn.Signature
+	if sig.Recv() != nil {
+		k := plainKind(sig.Recv().Type())
+		if k == "" || k == "error" || strings.HasPrefix(k, "ptr:") {
+			return false
+		}
+	}
+	for i := 0; i < sig.Params().Len(); i++ {
+		if k := plainKind(sig.Params().At(i).Type()); k == "" || k == "error" {
+			return false
+		}
+	}
+	if sig.Variadic() {
+		return false
+	}
+	for i := 0; i < sig.Results().Len(); i++ {
+		if plainKind(sig.Results().At(i).Type()) == "" {
+			return false
+		}
+	}
+	return true
+}
+
+func cmdReplayable(args []string) int {
+	e, err := loadEngine(repoDir(), filepath.Join(verifDir, "spec", "trusted"))
+	if err != nil {
+		fmt.Fprintln(os.Stderr, err)
+		return 2
+	}
+	var keys []string
+	for k, c := range e.contracts {
+		if c.Trusted || c.IsIface {
+			continue
+		}
+		if fn := e.findFunction(c); fn != nil && replayable(fn) {
+			keys = append(keys, fmt.Sprintf("%-60s %v %s", displayKey(k), c.Props, fn.Signature))
+		}
+	}
+	sort.Strings(keys)
+	for _, k := range keys {
+		fmt.Println(k)
 	}
 	return 0
 }
